@@ -51,10 +51,16 @@ RULE = ("model-compared histories (612 quick / 12 012 thorough): 1-3 owners x 1-
         "513, 1025) Computables on owners of their own; fan-in - one Computable reading 40 / 300 (256, 257, 1025) observables of one "
         "owner, the same observable 300 times, one observable of each of 260 (257, 1025) owners; chains 40 / 90 (129) deep read "
         "top-down and 250 (280) deep read bottom-up (below what HEAD manages under Python's recursion limit); 700 (3000) write/read "
-        "rounds on a small graph.  Oracle-only histories (200 quick / 4 000 thorough, not representable over Z): "
+        "rounds on a small graph.  USER CODE in the model-compared stream (behaviour-neutral on HEAD, so the Coq model is unchanged): "
+        "Computeds as instances of user subclasses - value-based __eq__/__hash__ (30 % of the Computeds share their function with another "
+        "one on a different owner: equal but distinct instances), overridden __call__ calling super() with a class-level default, positional "
+        "args; functions given as partials, bound methods and callable objects whose __eq__ is always True; Observable / Computable "
+        "subclasses (extra constructor argument, class attribute).  Oracle-only histories (200 quick / 4 000 thorough, not representable over Z): "
         "observable values bool / float (non-dyadic, -0.0) / int > 2^53 and < -2^63 / None / str / tuple / Fraction / Decimal, "
         "functions that build tuples, test truthiness and raise a user exception (`req`), owners whose truth value is False "
-        "(__len__ 0 / __bool__ False).  Targeted enumerator (thorough / on a break): all op sequences of length <= 4 (5) over "
+        "(__len__ 0 / __bool__ False), two distinct owners that compare EQUAL (value-based __eq__/__hash__; HEAD conflates them in "
+        "Computed.parents: known finding C17/Computed/equal-owners-conflated), user exceptions of eight types incl. StopIteration, "
+        "AttributeError, TypeError and GeneratorExit, also raised while the Computed is being installed.  Targeted enumerator (thorough / on a break): all op sequences of length <= 4 (5) over "
         "{set x 0|1, set y 0|1, read c0, read c1} on six shapes, with and without None results, and all writer action lists "
         "of length <= 3.  non-trivial = at least one computed re-evaluated after installation and at least one read served from "
         "cache; distinct = SHA1 of the history")
@@ -89,6 +95,10 @@ ASSUMPTIONS = [
     "relative to the healthy set survives collections (C17_healthy_invariant_survives_collections); the evaluation chain in states "
     "with dead owners is not proved; a Computed that read a collected owner stays stale: known finding "
     "C17/Computed/stale-after-parent-collected (refutation witness C17_never_stale_refuted)",
+    "second known finding C17/Computed/equal-owners-conflated: Computed.parents and PROCESSING_SIGNALS key owners by ==/hash, so two "
+    "distinct owners that compare equal are conflated (stale value / re-run on every dirty check / AttributeError in the comparison "
+    "loop); oracle only - the model identifies owners by their index and cannot express two equal ones without re-keying the parents "
+    "dictionary and its invariants",
     "observations recorded, not judged: a rejected installation leaves the Computed installed and later reads return None "
     "(C17_rejected_installation_then_read_returns_none); after a user exception inside a function later reads serve the cached value "
     "instead of raising (cand/ key; functions that raise are outside the quantifier).  Judged since fix C17-5 is committed: an owner "
@@ -133,6 +143,11 @@ def _rand_case(rng, nops):
     ncomp = rng.randint(1, 4)
     comps = []
     for j in range(ncomp):
+        if comps and rng.random() < 0.3:
+            # the SAME function on another owner: two Computeds that a value-based __eq__ makes equal
+            twin = rng.choice(comps)
+            comps.append({"owner": rng.randrange(nown), "expr": twin["expr"], "none0": twin["none0"]})
+            continue
         comps.append({"owner": rng.randrange(nown), "expr": _rand_expr(rng, owners, j, rng.choice([1, 2, 2, 3])),
                       "none0": rng.random() < 0.5})
     hist = {}
@@ -170,7 +185,8 @@ def _rand_case(rng, nops):
                 else:
                     acts.append(["w", o, n, rng.choice([0, 1, 2, 5])])
             ops.append(["win2" if rng.random() < 0.4 else "win", acts])
-    return {"init": init, "comps": comps, "ops": ops, "layout": rng.choice(["own", "own", "shared", "deep"])}
+    return {"init": init, "comps": comps, "ops": ops, "layout": rng.choice(["own", "own", "shared", "deep"]),
+            "csub": rng.choice(["stock", "stock", "eq", "eq", "call"]), "osub": rng.random() < 0.3, "fwrap": rng.random() < 0.3}
 
 
 # --- oracle-only stream (the Z-valued model cannot represent it): arbitrary Python values in the observables, functions
@@ -178,6 +194,26 @@ def _rand_case(rng, nops):
 _POOL = [["i", 0], ["i", 1], ["b", True], ["b", False], ["f", "1.0"], ["f", "2.5"], ["f", "0.30000000000000004"],
          ["f", "0.3"], ["i", 2 ** 53 + 1], ["i", 10 ** 20], ["i", -(2 ** 63)], ["n"], ["s", "a"], ["s", ""],
          ["t", [["i", 1], ["i", 2]]], ["t", []], ["F", 1, 3], ["D", "1.5"], ["f", "-0.0"]]
+
+
+def json_dumps(x):
+    import json
+
+    return json.dumps(x)
+
+
+# the exception types a user function raises in the oracle-only stream (`req`), incl. the "control-flow" ones
+_EXC_KINDS = ["LookupError", "KeyError", "AttributeError", "TypeError", "StopIteration", "IndexError", "ZeroDivisionError", "GeneratorExit"]
+
+
+def _user_exc(kind):
+    import builtins
+
+    return getattr(builtins, _EXC_KINDS[kind % len(_EXC_KINDS)])("__user__")
+
+
+def _is_user_exc(ex):
+    return getattr(ex, "args", ())[:1] == ("__user__",)
 
 
 def _dec(v):
@@ -220,7 +256,7 @@ def _het_expr(rng, owners, j, depth):
         return ["if", obs(), _het_expr(rng, owners, j, depth - 1), _het_expr(rng, owners, j, depth - 1)]
     if r < 0.9:
         return ["+", _het_expr(rng, owners, j, depth - 1), _het_expr(rng, owners, j, depth - 1)]
-    return ["req", _het_expr(rng, owners, j, depth - 1)]
+    return ["req", _het_expr(rng, owners, j, depth - 1), rng.randrange(len(_EXC_KINDS))]
 
 
 def _het_case(rng):
@@ -229,6 +265,8 @@ def _het_case(rng):
     init = [[rng.choice(_POOL) for _ in range(k)] for k in owners]
     ncomp = rng.randint(1, 4)
     comps = [{"owner": rng.randrange(nown), "expr": _het_expr(rng, owners, j, rng.choice([1, 2, 2, 3]))} for j in range(ncomp)]
+    if ncomp > 1 and rng.random() < 0.3 and comps[1]["expr"][0] != "k":
+        comps[0] = {"owner": comps[0]["owner"], "expr": comps[1]["expr"]} if "k" not in json_dumps(comps[1]["expr"]) else comps[0]
     ops = []
     hist = {}
     for _ in range(rng.randint(4, 24)):
@@ -244,8 +282,22 @@ def _het_case(rng):
         else:
             ops.append(["kill", rng.randrange(nown)])
     falsy = [o for o in range(nown) if rng.random() < 0.2]
-    return {"het": True, "init": init, "comps": comps, "ops": ops, "falsy": falsy,
-            "layout": rng.choice(["own", "shared", "deep"])}
+    eqown = []
+    if nown >= 2 and rng.random() < 0.15:
+        eqown = [0, 1]           # two distinct owners that compare EQUAL (value-based __eq__/__hash__)
+        ops = [op for op in ops if op[0] != "kill"]      # keep the other known finding / observations out of these histories
+        falsy = []
+
+        def strip(e):
+            if e[0] == "req":
+                return strip(e[1])
+            if e[0] in ("+", "if"):
+                return [e[0]] + [strip(x) for x in e[1:]]
+            return e
+        comps = [{"owner": c["owner"], "expr": strip(c["expr"])} for c in comps]
+    return {"het": True, "init": init, "comps": comps, "ops": ops, "falsy": falsy, "eqown": eqown,
+            "layout": "own" if eqown else rng.choice(["own", "shared", "deep"]),
+            "csub": rng.choice(["stock", "eq", "call"]), "osub": rng.random() < 0.3, "fwrap": rng.random() < 0.3}
 
 
 # --- SCALE stream: dependency graphs whose sizes cross 255/256/257, 512, 1024 ... (subscriber lists, parents dicts,
@@ -389,6 +441,13 @@ def _corner_cases():
                        ["set", 0, 0, 1], ["win2", [["rk", 0], ["w", 0, 1, 7], ["r", 0, 0], ["w", 0, 0, 6]]], ["read", 0],
                        ["set", 0, 0, 1], ["win2", [["r", 0, 0], ["w", 0, 1, 9], ["w", 0, 0, 6]]], ["read", 0],
                        ["win2", [["w", 0, 1, 3]]], ["set", 0, 0, 2], ["win2", [["w", 0, 1, 3]]]]})
+    # two Computeds with the SAME function on different owners (equal under a value-based __eq__), one shared observable
+    for csub in ("eq", "call", "stock"):
+        cs.append({"init": [[1], [0], [0]], "csub": csub, "fwrap": csub == "call", "osub": csub == "eq",
+                   "comps": [{"owner": 1, "expr": ["+", ["o", 0, 0], ["c", 100]]}, {"owner": 2, "expr": ["+", ["o", 0, 0], ["c", 100]]},
+                             {"owner": 2, "expr": ["+", ["k", 0], ["k", 1]]}],
+                   "ops": [["read", 0], ["read", 1], ["set", 0, 0, 2], ["read", 0], ["read", 1], ["read", 0], ["set", 0, 0, 3],
+                           ["read", 1], ["read", 0], ["set", 0, 0, 4], ["read", 0], ["read", 1], ["set", 0, 0, 5], ["read", 2]]})
     # collected parent
     cs.append({"init": [[1], [7]], "comps": [{"owner": 0, "expr": ["+", ["o", 1, 0], ["o", 0, 0]]}],
                "ops": [["read", 0], ["kill", 1], ["read", 0], ["set", 0, 0, 1], ["read", 0], ["set", 0, 0, 2], ["read", 0]]})
@@ -514,8 +573,9 @@ def _pure1(env, e, j):
     raise ValueError(t)
 
 
-class _Required(LookupError):
-    """the user-code exception of the oracle-only stream (`req`: the function needs a truthy value)"""
+class _Required(Exception):
+    """direct evaluation: the function raises now (`req`: it needs a truthy value; the implementation side raises
+    one of _EXC_KINDS with the marker argument "__user__")"""
 
 
 _GONE = object()
@@ -536,13 +596,46 @@ def _cur(env, src):
 
 KEY_FALSY = "C17/Computed.__call__/falsy-owner-treated-as-collected"   # repaired (fix C17-5): a verdict if it returns
 CAND_EXC = "cand/C17/Computed.__call__/exception-in-function-then-cached-value-served"
+KEY_EQOWN = "C17/Computed/equal-owners-conflated"   # KNOWN FINDING (wave 10): owners keyed by ==/hash in Computed.parents
+
+
+def _owners_in(env, e, j, out):
+    t = e[0]
+    if t == "o":
+        out.add(e[1])
+    elif t == "k":
+        if e[1] < j:
+            out.add(env.cowner[e[1]])        # a Computable is a parent keyed by ITS owner
+        if e[1] < j and e[1] not in env._cone_seen:
+            env._cone_seen.add(e[1])
+            _owners_in(env, env.exprs[e[1]], e[1], out)
+    elif t in ("+", "if", "req"):
+        for x in e[1:]:
+            if isinstance(x, list):
+                _owners_in(env, x, j, out)
+
+
+def _cone_has_equal_owners(env):
+    """does the Computed being read at top level (or, through it, any Computable below) have parents - observables or
+    Computables - on BOTH equal owners?"""
+    j = getattr(env, "top_j", None)
+    if j is None:
+        return False
+    env._cone_seen = set()
+    out = set()
+    _owners_in(env, env.exprs[j], j, out)
+    return all(o in out for o in env.eqown)
 
 
 def _fail(env, key, what):
     """symptoms that follow from a user-code exception inside a function earlier in the history are an OBSERVATION
     (functions that raise are outside C17's quantifier) recorded under a cand/ key the framework does not report;
     a re-run caused by an owner whose truth value is False is the repaired defect C17-5: a verdict"""
-    if getattr(env, "exc_seen", False) and key.startswith("C17/"):
+    if getattr(env, "eqown", None) and key.startswith("C17/") and _cone_has_equal_owners(env):
+        # every spelling of the known finding (stale value, re-run on every dirty check, AttributeError from the comparison
+        # loop): only in a history with two equal-but-distinct owners, and only for a Computed whose cone reads BOTH
+        key = KEY_EQOWN
+    elif getattr(env, "exc_seen", False) and key.startswith("C17/"):
         key = CAND_EXC
     elif getattr(env, "falsy", None) and "spurious-recompute" in key:
         key = KEY_FALSY
@@ -597,7 +690,7 @@ def _mk_func(env, j, expr):
         if t == "req":
             v = ev(e[1])
             if not v:
-                raise _Required()
+                raise _user_exc(e[2] if len(e) > 2 else 0)
             return v
         if t == "o":
             o = env.owners.get(e[1])
@@ -638,8 +731,9 @@ def _mk_func(env, j, expr):
         env.reads = []
         try:
             r = ev(expr)
-        except _Required:
-            env.exc_seen = True
+        except BaseException as ex:
+            if _is_user_exc(ex):
+                env.exc_seen = True
             raise
         finally:
             mine = env.reads
@@ -681,6 +775,7 @@ def run_impl(case):
     env.z = (lambda v: v) if env.het else _z
     env.exc_seen = False
     env.falsy = list(case.get("falsy", [])) if env.het else []
+    env.eqown = list(case.get("eqown", [])) if env.het else []
     dec = _dec if env.het else (lambda v: v)
     init = case["init"]
     comps = case["comps"]
@@ -701,11 +796,77 @@ def run_impl(case):
         t = Observable()
 
     dummy = Dummy()
+    if case.get("osub"):          # user subclasses of the descriptors: docstring-only / class-level default / extra argument
+        class MyObservable(Observable):
+            """an Observable with a label"""
+
+            def __init__(self, fallback_value=None, label=""):
+                super().__init__(fallback_value=fallback_value)
+                self.label = label
+
+        class MyComputable(Computable):
+            unit = "u"
+
+        def mkobs():
+            return MyObservable(label="x")
+
+        mkcomp = MyComputable
+    else:
+        mkobs, mkcomp = Observable, Computable
+
+    class EqComputed(Computed):
+        """compares by WHAT it computes (value-based __eq__/__hash__): two instances with the same function are equal"""
+        key = None
+
+        def __eq__(self, other):
+            return isinstance(other, EqComputed) and self.key == other.key
+
+        def __hash__(self):
+            return hash(self.key)
+
+    class CallComputed(Computed):
+        calls = 0                 # class-level default, extra attribute
+
+        def __call__(self):
+            self.calls += 1
+            return super().__call__()
+
+    class Holder:                 # functions that are bound methods of an object with a permissive __eq__
+        def __init__(self, f):
+            self.f = f
+
+        def __eq__(self, other):
+            return True
+
+        def __hash__(self):
+            return 0
+
+        def run(self):
+            return self.f()
+
+        def __call__(self):
+            return self.f()
+
+    def make_computed(j, expr):
+        import functools
+
+        f = _mk_func(env, j, expr)
+        if case.get("fwrap"):
+            f = [f, functools.partial(f), Holder(f).run, Holder(f)][j % 4]
+        kind = case.get("csub", "stock")
+        if kind == "eq":
+            c = EqComputed(f)
+            c.key = json_dumps(expr)
+            return c
+        if kind == "call":
+            return CallComputed(f) if j % 2 == 0 else Computed(lambda tag: f(), "tag")
+        return Computed(f)
+
     layout = case.get("layout", "own")
     shared = None
     if layout == "shared":        # every owner is an instance of ONE class carrying all descriptors (class-level state)
-        ns = {f"x{n}": Observable() for n in range(max(len(v) for v in init))}
-        ns.update({f"c{j}": Computable() for j in range(len(comps))})
+        ns = {f"x{n}": mkobs() for n in range(max(len(v) for v in init))}
+        ns.update({f"c{j}": mkcomp() for j in range(len(comps))})
         shared = type("SharedOwner", (HasObservables,), ns)
 
     class Mixin:                  # placed AFTER the framework base in the MRO
@@ -715,20 +876,23 @@ def run_impl(case):
             return self.tag
 
     for o, vals in enumerate(init):
-        mine = {f"c{j}": Computable() for j, c in enumerate(comps) if c["owner"] == o}
+        mine = {f"c{j}": mkcomp() for j, c in enumerate(comps) if c["owner"] == o}
         if shared is not None:
             cls = shared
         elif layout == "deep":    # observables on a base class, Computables on a subclass of a subclass + mixin
-            base = type(f"Base{o}", (HasObservables,), {f"x{n}": Observable() for n in range(len(vals))})
+            base = type(f"Base{o}", (HasObservables,), {f"x{n}": mkobs() for n in range(len(vals))})
             mid = type(f"Mid{o}", (base,), {})
             cls = type(f"Owner{o}", (mid, Mixin), mine)
         else:
-            ns = {f"x{n}": Observable() for n in range(len(vals))}
+            ns = {f"x{n}": mkobs() for n in range(len(vals))}
             ns.update(mine)
             cls = type(f"Owner{o}", (HasObservables,), ns)
         if o in env.falsy:        # an owner whose truth value is False (a container that is empty)
             extra = {"__len__": (lambda self: 0)} if o % 2 == 0 else {"__bool__": (lambda self: False)}
             cls = type(f"Falsy{o}", (cls,), extra)
+        if o in env.eqown:        # distinct owners that compare equal and hash alike
+            cls = type(f"EqOwner{o}", (cls,), {"__eq__": (lambda self, other: getattr(other, "_eqtag", None) == "t"),
+                                               "__hash__": (lambda self: 17), "_eqtag": "t"})
         inst = cls()
         env.owners[o] = inst
         env.ids[id(inst)] = o
@@ -738,15 +902,20 @@ def run_impl(case):
             setattr(inst, f"x{n}", v)
             env.shadow[(o, n)] = v
     setup_ok = True
-    try:
-        for j, c in enumerate(comps):
-            setattr(env.owners[c["owner"]], f"c{j}", Computed(_mk_func(env, j, c["expr"])))
-    except Exception as e:  # noqa: BLE001
-        setup_ok = False
-        _fail(env, "C17/Computable.__set__/unexpected-exception", f"installing the computeds raised {type(e).__name__}: {e}")
+    for j, c in enumerate(comps):
+        try:
+            setattr(env.owners[c["owner"]], f"c{j}", make_computed(j, c["expr"]))
+        except BaseException as e:  # noqa: BLE001
+            if _is_user_exc(e):
+                env.exc_seen = True          # the user function raised while being installed: the Computed stays installed
+                continue
+            setup_ok = False
+            _fail(env, "C17/Computable.__set__/unexpected-exception", f"installing the computeds raised {type(e).__name__}: {e}")
+            break
     obs = []
     for i, op in enumerate(case["ops"]):
         env.opi = i
+        env.top_j = None
         kind = op[0]
         if not setup_ok:
             obs.append([-1, 99])
@@ -766,6 +935,7 @@ def run_impl(case):
                 if env.cowner[j] not in env.alive:
                     obs.append([-2])
                     continue
+                env.top_j = j
                 if env.het:
                     obs.append(_het_read(env, j))
                     continue
@@ -824,7 +994,9 @@ def _het_read(env, j):
         exp, exp_raises = None, True
     try:
         got, got_raises = getattr(env.owners[env.cowner[j]], f"c{j}"), False
-    except _Required:
+    except BaseException as ex:
+        if not _is_user_exc(ex):
+            raise
         got, got_raises = None, True
         env.exc_seen = True
     if exp_raises and not got_raises:
@@ -1022,8 +1194,8 @@ LEVEL_NOTE = ("Theorems are about the model; the tie to the code is T1 (translat
               "Computed.__call__ in states with dead owners (histories continuing after a collection), hence the _partial names.  "
               "Oracle only: non-int values, user exceptions in functions, falsy owners, class layouts.  Defects: 5 repaired "
               "(cached parent value registered; read set cleared inside an evaluation; parents of earlier evaluations kept; nested "
-              "comparison registers on the enclosing Computed; falsy owner taken for collected), 1 known finding (stale after a parent "
-              "owner is collected), 2 observations (rejected installation stays installed; cached value served after a user exception).  Trusted: Coq kernel, translator + dictionary, driver/observer, CPython "
+              "comparison registers on the enclosing Computed; falsy owner taken for collected), 2 known findings (stale after a parent "
+              "owner is collected; equal-but-distinct owners conflated), 2 observations (rejected installation stays installed; cached value served after a user exception).  Trusted: Coq kernel, translator + dictionary, driver/observer, CPython "
               "dict/weakref/gc semantics as modelled.  No axioms.")
 TECHNIQUE = ("Coq proof (fuel-indexed evaluation, invariant over all histories, second induction for run counts, healthy-set invariant "
              "for collections; closed under the global context) + code-level T1 (statement translator, bridge lemmas, normalised "
